@@ -5,6 +5,8 @@ import (
 	"path"
 
 	"github.com/goatcms/goatcore/filesystem"
+	"github.com/goatcms/goatcore/varutil"
+	"github.com/goatcms/goatcore/varutil/goaterr"
 )
 
 // SubFS is a filespace related to a base path in other filespace
@@ -23,84 +25,150 @@ func NewSubFS(fs filesystem.Filespace, basePath string) filesystem.Filespace {
 }
 
 // Copy method run Copy method of parent filesystem but in relative base path
-func (sub SubFS) Copy(src, dest string) error {
+func (sub SubFS) Copy(src, dest string) (err error) {
+	if src, err = varutil.ReduceAbsPath(src); err != nil {
+		return err
+	}
+	if dest, err = varutil.ReduceAbsPath(dest); err != nil {
+		return err
+	}
 	return sub.fs.Copy(sub.basePath+src, sub.basePath+dest)
 }
 
 // CopyDirectory method run CopyDirectory method of parent filesystem but in relative base path
-func (sub SubFS) CopyDirectory(src, dest string) error {
+func (sub SubFS) CopyDirectory(src, dest string) (err error) {
+	if src, err = varutil.ReduceAbsPath(src); err != nil {
+		return err
+	}
+	if dest, err = varutil.ReduceAbsPath(dest); err != nil {
+		return err
+	}
 	return sub.fs.CopyDirectory(sub.basePath+src, sub.basePath+dest)
 }
 
 // CopyFile method run CopyFile method of parent filesystem but in relative base path
-func (sub SubFS) CopyFile(src, dest string) error {
+func (sub SubFS) CopyFile(src, dest string) (err error) {
+	if src, err = varutil.ReduceAbsPath(src); err != nil {
+		return err
+	}
+	if dest, err = varutil.ReduceAbsPath(dest); err != nil {
+		return err
+	}
 	return sub.fs.CopyFile(sub.basePath+src, sub.basePath+dest)
 }
 
 // ReadDir method run ReadDir method of parent filesystem but in relative base path
-func (sub SubFS) ReadDir(src string) ([]os.FileInfo, error) {
+func (sub SubFS) ReadDir(src string) (_ []os.FileInfo, err error) {
+	if src, err = varutil.ReduceAbsPath(src); err != nil {
+		return nil, err
+	}
 	return sub.fs.ReadDir(sub.basePath + src)
 }
 
 // IsExist method run IsExist method of parent filesystem but in relative base path
 func (sub SubFS) IsExist(src string) bool {
+	var err error
+	if src, err = varutil.ReduceAbsPath(src); err != nil {
+		return false
+	}
 	return sub.fs.IsExist(sub.basePath + src)
 }
 
 // IsFile method run IsFile method of parent filesystem but in relative base path
 func (sub SubFS) IsFile(src string) bool {
+	var err error
+	if src, err = varutil.ReduceAbsPath(src); err != nil {
+		return false
+	}
 	return sub.fs.IsFile(sub.basePath + src)
 }
 
 // IsDir method run IsDir method of parent filesystem but in relative base path
 func (sub SubFS) IsDir(src string) bool {
+	var err error
+	if src, err = varutil.ReduceAbsPath(src); err != nil {
+		return false
+	}
 	return sub.fs.IsDir(sub.basePath + src)
 }
 
 // MkdirAll method run MkdirAll method of parent filesystem but in relative base path
-func (sub SubFS) MkdirAll(dest string, filemode os.FileMode) error {
+func (sub SubFS) MkdirAll(dest string, filemode os.FileMode) (err error) {
+	if dest, err = varutil.ReduceAbsPath(dest); err != nil {
+		return err
+	}
 	return sub.fs.MkdirAll(sub.basePath+dest, filemode)
 }
 
 // ReadFile method run ReadFile method of parent filesystem but in relative base path
-func (sub SubFS) ReadFile(src string) ([]byte, error) {
+func (sub SubFS) ReadFile(src string) (_ []byte, err error) {
+	if src, err = varutil.ReduceAbsPath(src); err != nil {
+		return nil, err
+	}
 	return sub.fs.ReadFile(sub.basePath + src)
 }
 
 // WriteFile method run WriteFile method of parent filesystem but in relative base path
-func (sub SubFS) WriteFile(dest string, data []byte, perm os.FileMode) error {
+func (sub SubFS) WriteFile(dest string, data []byte, perm os.FileMode) (err error) {
+	if dest, err = varutil.ReduceAbsPath(dest); err != nil {
+		return err
+	}
 	return sub.fs.WriteFile(sub.basePath+dest, data, perm)
 }
 
 // Filespace create new filespace
-func (sub SubFS) Filespace(src string) (filesystem.Filespace, error) {
+func (sub SubFS) Filespace(src string) (_ filesystem.Filespace, err error) {
+	if src, err = varutil.ReduceAbsPath(src); err != nil {
+		return nil, err
+	}
 	return SubFS{
-		basePath: sub.basePath + path.Clean(src) + "/",
+		basePath: sub.basePath + src + "/",
 		fs:       sub.fs,
 	}, nil
 }
 
 // Reader method run Reader method of parent filesystem but in relative base path
-func (sub SubFS) Reader(src string) (filesystem.Reader, error) {
+func (sub SubFS) Reader(src string) (_ filesystem.Reader, err error) {
+	if src, err = varutil.ReduceAbsPath(src); err != nil {
+		return nil, err
+	}
 	return sub.fs.Reader(sub.basePath + src)
 }
 
 // Writer method run Writer method of parent filesystem but in relative base path
-func (sub SubFS) Writer(dest string) (filesystem.Writer, error) {
+func (sub SubFS) Writer(dest string) (_ filesystem.Writer, err error) {
+	if dest, err = varutil.ReduceAbsPath(dest); err != nil {
+		return nil, err
+	}
 	return sub.fs.Writer(sub.basePath + dest)
 }
 
 // Remove method run Remove method of parent filesystem but in relative base path
-func (sub SubFS) Remove(dest string) error {
+func (sub SubFS) Remove(dest string) (err error) {
+	if dest, err = varutil.ReduceAbsPath(dest); err != nil {
+		return err
+	}
+	if dest == "" {
+		return goaterr.Errorf("Remove: the filespace root can not be removed")
+	}
 	return sub.fs.Remove(sub.basePath + dest)
 }
 
 // RemoveAll method run RemoveAll method of parent filesystem but in relative base path
-func (sub SubFS) RemoveAll(dest string) error {
+func (sub SubFS) RemoveAll(dest string) (err error) {
+	if dest, err = varutil.ReduceAbsPath(dest); err != nil {
+		return err
+	}
+	if dest == "" {
+		return goaterr.Errorf("RemoveAll: the filespace root can not be removed")
+	}
 	return sub.fs.RemoveAll(sub.basePath + dest)
 }
 
 // Lstat method run Lstat method of parent filesystem but in relative base path
-func (sub SubFS) Lstat(src string) (os.FileInfo, error) {
+func (sub SubFS) Lstat(src string) (_ os.FileInfo, err error) {
+	if src, err = varutil.ReduceAbsPath(src); err != nil {
+		return nil, err
+	}
 	return sub.fs.Lstat(sub.basePath + src)
 }
